@@ -217,6 +217,9 @@ CleanDone(i) ==
 (***************************************************************************)
 (* Operation level                                                         *)
 (***************************************************************************)
+\* the phases a TrackNewOperation holding opt.mu may have read: only the table entry is ever read
+SeenAfter(i) == IF table[ops[i].cid] = i THEN ops[i].seen \cup {ops[i].phase} ELSE {}
+
 Rank(p) == CASE p = "queued" -> 1 [] p = "inprogress" -> 2 [] OTHER -> 3
 Backward(old, new) == Rank(new) < Rank(old) \/ (Rank(old) = 3 /\ new # old)
 
@@ -247,7 +250,7 @@ PcAfterPhase(pc, ph) ==
 SetPhase(i, ph) ==
     /\ i \in Ids /\ ph \in Phases
     /\ ST => PcAfterPhase(ops[i].pc, ph) # ops[i].pc
-    /\ ops' = [ops EXCEPT ![i].phase = ph, ![i].seen = @ \cup {ops[i].phase}, ![i].pc = PcAfterPhase(@, ph)]
+    /\ ops' = [ops EXCEPT ![i].phase = ph, ![i].seen = SeenAfter(i), ![i].pc = PcAfterPhase(@, ph)]
     /\ hist' = [hist EXCEPT
           !.back    = IF Backward(ops[i].phase, ph) THEN @ \cup {i} ELSE @,
           !.errleft = IF ops[i].phase = "error" /\ ph # "error" THEN @ \cup {i} ELSE @]
@@ -258,7 +261,7 @@ PcAfterError(pc) == CASE pc = "full" -> "fullerr" [] pc = "reterr" -> "seterr" [
 OpSetError(i) ==
     /\ i \in Ids
     /\ ST => PcAfterError(ops[i].pc) # ops[i].pc
-    /\ ops' = [ops EXCEPT ![i].phase = "error", ![i].seen = @ \cup {ops[i].phase}, ![i].pc = PcAfterError(@)]
+    /\ ops' = [ops EXCEPT ![i].phase = "error", ![i].seen = SeenAfter(i), ![i].pc = PcAfterError(@)]
     /\ hist' = [hist EXCEPT !.back = IF Backward(ops[i].phase, "error") THEN @ \cup {i} ELSE @]
     /\ UNCHANGED <<nops, table, pinQ, unpinQ, mu, down, conf>>
 
